@@ -546,10 +546,46 @@ def _run_cases(b, fn, seeds):
             b.violation(v["case"], v["detail"], v["input"])
 
 
+def _c04_single_module(seed):
+    """module_path = a directory whose scan yields ONE module, 2-4 levels below root_path (an empty directory, or one whose content is excluded): the architecture is the chain
+    root .. module_path, and 'the sub modules of a module are exactly the modules whose dotted name extends it' (defect F04a: the chain stayed unlinked above the direct parent)."""
+    rng = random.Random(seed)
+    depth = 2 + seed % 3
+    comps = rng.sample(["a", "ab", "b", "core", "x", "pyx"], depth)
+    rel = "/".join(comps)
+    files = {"__init__.py": "", "other.py": ""}
+    variant = seed % 2
+    if variant == 0:
+        files[rel + "/"] = ""                       # an empty directory
+        kw = {}
+    else:
+        files[rel + "/only.py"] = ""
+        kw = dict(exclusions=("*only.py",))         # its one file is excluded
+    out = []
+    with temp_project(files, ROOT) as root:
+        arch = scan(root, os.path.join(root, rel), **kw)
+        mods, imps, hier = arch_snapshot(arch)
+        chain = [ROOT] + [ROOT + "." + ".".join(comps[:i]) for i in range(1, depth + 1)]
+        from pytestarch.eval_structure.breadth_first_searches import get_all_submodules_of
+        from pytestarch.eval_structure.evaluable_architecture import ModuleNameFilter
+        if set(mods) != set(chain):
+            out.append(dict(case="single-module-scan", detail=f"module_path={rel} ({'empty directory' if variant == 0 else 'only file excluded'}): modules {sorted(mods)}, expected the chain {chain}",
+                            input=dict(kind="c04-single", seed=seed)))
+            return out
+        for m in chain:
+            subs = set(get_all_submodules_of(arch._graph, ModuleNameFilter(name=m)))
+            want = {x for x in chain if x == m or x.startswith(m + ".")}
+            if subs != want:
+                out.append(dict(case="single-module-scan", detail=f"module_path={rel} ({'empty directory' if variant == 0 else 'only file excluded'}): {m} and its sub modules are {sorted(subs)}, the names extending it are {sorted(want)} "
+                                f"(hierarchy edges {sorted(hier)})", input=dict(kind="c04-single", seed=seed)))
+                return out
+    return out
+
+
 def bounded_tree_mirror(tier, seed):
     b = Bounded("C04.modules-mirror-directory-tree", "random directory trees (depth 2-4, 2-4 entries per directory from 8 names incl. string prefixes of siblings, packages with and without __init__.py, "
                 "non-python files), 2-8 absolute imports; 400 (quick) / 15000 trees; per tree 2 sub-directory scans compared with the restriction of the whole-root scan; both import spellings below a "
-                "sub-directory module_path; module-object entry point vs path entry point under 7 option sets")
+                "sub-directory module_path; module-object entry point vs path entry point under 7 option sets; 12/120 scans whose only module lies 2-4 levels below root_path (empty directory / only file excluded): chain of modules and sub-module relation")
     n = 400 if tier == "quick" else 15000
     _run_cases(b, _c04_case, [seed * 100003 + i for i in range(n)])
     _run_cases(b, _c04_relative_spelling, [seed * 7 + i for i in range(4)])
@@ -558,6 +594,7 @@ def bounded_tree_mirror(tier, seed):
         for v in res:
             b.violation(v["case"], v["detail"], v["input"])
     _run_cases(b, _c04_module_objects, [seed % 1000])
+    _run_cases(b, _c04_single_module, [seed * 31 + i for i in range(12 if tier == "quick" else 120)])
     b.samples.append(dict(tree=sorted(random_tree(random.Random(seed)))[:8]))
     return b.result()
 
@@ -566,7 +603,7 @@ def rerun_c04(inp):
     if inp["kind"] == "c04-sib":
         res = pmap(_c04_sibling_scans, [(inp["seed"], inp.get("order_idx", 0), inp.get("root_first", False))], fresh=True)[0]
         return (not res), ("; ".join(v["detail"] for v in res) or "every sub-directory scan equals the restriction of the whole-root scan")
-    fn = {"c04": _c04_case, "c04-rel": _c04_relative_spelling, "c04-obj": _c04_module_objects}[inp["kind"]]
+    fn = {"c04": _c04_case, "c04-rel": _c04_relative_spelling, "c04-obj": _c04_module_objects, "c04-single": _c04_single_module}[inp["kind"]]
     res = fn(inp["seed"])
     return (not res), ("; ".join(v["detail"] for v in res) or "scan mirrors the tree")
 
